@@ -194,6 +194,8 @@ func (pb *PrimaryBlock) UnmarshalCbor(r io.Reader) error {
 
 	if crcT, err := cboring.ReadUInt(r); err != nil {
 		return err
+	} else if crcT > uint64(CRC32) {
+		return fmt.Errorf("unknown CRCType %d", crcT)
 	} else {
 		pb.CRCType = CRCType(crcT)
 	}
